@@ -7,11 +7,12 @@ import SJ.Proofs.FloatLiteral
 `Model.FloatDefault.partsOfLiteral`/`floatOfLiteral` (the subject of the C08 theorems) were written
 independently from the same Rust (`src/de.rs`, non-`float_roundtrip`). This file translates the
 machine's `Parts` into a `Spec.Decimal.NumLit` (`toNumLit`) and proves the two developments equal on
-every literal the machine's scanner can produce (`PartsWF`):
+every literal the machine's scanner can produce (`PartsWF`, defined in `Proofs/NumFuel.lean` together
+with the table-independent proof that (A) never runs out of fuel, `convertDefault_ne_outOfFuel`):
 
 * `convertDefault_eq_floatDefault : convertDefault p = resOfParts (partsOfLiteral (toNumLit p))`
 * `convertDefault_f64_iff`, `convertDefault_outOfRange_iff`, `convertDefault_u64_iff`, `convertDefault_i64_iff`
-* `convertDefault_ne_outOfFuel` (C14: the number conversion never runs out of fuel).
+* `numOfNRes_convertDefault`: as `Number`s, (A)'s result is `numOfLit (toNumLit p)`, (B)'s prediction.
 
 No float code is evaluated: every step is an equation between the two loops on open terms.
 -/
